@@ -73,6 +73,14 @@ Proof.
       apply path_eqb_eq in E. subst. now rewrite Fq.
 Qed.
 
+Lemma find_entry_in t p e : find_entry t p = Some e -> In (p, e) t.
+Proof.
+  induction t as [|[q x] t IH]; simpl; [discriminate|].
+  destruct (path_eqb q p) eqn:E.
+  - intros H. inversion H; subst. apply path_eqb_eq in E. subst. now left.
+  - intros H. right. auto.
+Qed.
+
 (* rm -rf p: everything at or below p is gone, everything else is untouched *)
 Lemma find_remove_sub t p q :
   find_entry (remove_sub t p) q = if is_prefix p q then None else find_entry t q.
@@ -413,27 +421,50 @@ Proof.
   - intros y [<-|[]]. eauto.
 Qed.
 
-Lemma find_put_other t x e q : path_eqb x q = false -> find_entry (put t x e) q = find_entry t q.
+Lemma skipn_app_exact {A} (a b : list A) : skipn (length a) (a ++ b) = b.
+Proof. induction a; simpl; auto. Qed.
+
+Lemma path_eqb_app_l a b c : path_eqb (a ++ b) (a ++ c) = path_eqb b c.
+Proof. induction a; simpl; auto. now rewrite Z.eqb_refl. Qed.
+
+Lemma is_prefix_app_false s q r : is_prefix s q = false -> path_eqb q (s ++ r) = false.
 Proof.
-  intros H. destruct e; simpl.
-  - now rewrite find_set_file, H.
-  - now apply find_add_dir_other.
+  intros H. apply path_eqb_neq. intros ->. rewrite is_prefix_app in H. discriminate.
 Qed.
 
-Lemma find_graft_other l : forall t s dst q,
-  is_prefix dst q = false ->
-  find_entry (fold_left (fun t' e => put t' (reroot s dst (fst e)) (snd e)) l t) q = find_entry t q.
+(* where the rerooted copy of the subtree at s has an entry *)
+Lemma find_map_reroot t s dst x :
+  find_entry (map (fun e => (reroot s dst (fst e), snd e)) (sub t s)) x =
+  if is_prefix dst x then find_entry t (unroot s dst x) else None.
 Proof.
-  induction l as [|e l IH]; intros t s dst q H; simpl; auto.
-  rewrite IH by auto. apply find_put_other. apply is_prefix_false_neq.
-  destruct (is_prefix (reroot s dst (fst e)) q) eqn:E; auto.
-  unfold reroot in E. rewrite (is_prefix_trans _ _ _ (is_prefix_app dst _) E) in H. discriminate.
+  unfold sub. induction t as [|[q e] t IH]; simpl.
+  - now destruct (is_prefix dst x).
+  - destruct (is_prefix s q) eqn:Sq; simpl.
+    + rewrite IH. apply is_prefix_spec in Sq as [r ->]. unfold reroot. rewrite skipn_app_exact.
+      destruct (is_prefix dst x) eqn:Dx.
+      * apply is_prefix_spec in Dx as [r' ->]. unfold unroot. rewrite skipn_app_exact, !path_eqb_app_l. reflexivity.
+      * rewrite (path_eqb_sym (dst ++ r) x), (is_prefix_app_false dst x r Dx). reflexivity.
+    + rewrite IH. destruct (is_prefix dst x); auto. unfold unroot. now rewrite (is_prefix_app_false s q _ Sq).
 Qed.
+
+Lemma find_graft t s dst x :
+  find_entry (graft t s dst) x =
+  if is_prefix dst x then match find_entry t (unroot s dst x) with Some e => Some e | None => find_entry t x end
+  else find_entry t x.
+Proof.
+  unfold graft. rewrite find_entry_app, (find_entry_filter (fun k => negb (has_source t s dst k))), find_map_reroot.
+  unfold has_source. destruct (is_prefix dst x); simpl.
+  - destruct (find_entry t (unroot s dst x)); simpl; auto. destruct (find_entry t x); auto.
+  - destruct (find_entry t x); auto.
+Qed.
+
+Lemma find_graft_other t s dst q : is_prefix dst q = false -> find_entry (graft t s dst) q = find_entry t q.
+Proof. intros H. now rewrite find_graft, H. Qed.
 
 Lemma frame_graft t s dst rs r : In r rs -> is_prefix r dst = true -> frame t (graft t s dst) rs.
 Proof.
   intros Hin Hp. apply (frame_under _ _ [dst]).
-  - intros q _ H. unfold graft. apply find_graft_other. apply H. now left.
+  - intros q _ H. apply find_graft_other. apply H. now left.
   - intros y [<-|[]]. eauto.
 Qed.
 
@@ -647,7 +678,7 @@ Proof.
     destruct (is_prefix dst (n :: s)) eqn:P2; [intros H; inv_out H; auto|]. simpl orb.
     destruct (through_file t dst || graft_conflict t (n :: s) dst); [discriminate|]. intros H; inv_out H.
     intros q Hq. destruct q as [|a q]; [reflexivity|]. simpl.
-    unfold graft. rewrite find_graft_other.
+    rewrite find_graft_other.
     + apply find_mkdirp_other. destruct (is_prefix (a :: q) dst) eqn:E; auto.
       rewrite (is_prefix_trans _ _ _ Hq E) in P1. discriminate.
     + destruct (is_prefix dst (a :: q)) eqn:E; auto.
